@@ -130,10 +130,22 @@ func (d *Decorator) DecorateNode(n ast.Node) (dst.Node, error) {
 	if f, ok := n.(*ast.File); ok {
 		fd.file = f
 	}
-	fd.fragment(n)
-	fd.verifFragments()
-	fd.link()
-	fd.verifLinked()
+	if pkg, ok := n.(*ast.Package); ok {
+		// Comments and line breaks are attached file by file: the search for an attachment point
+		// must never run from the end of one file into the start of the next.
+		for _, file := range pkg.Files {
+			fd.fragments = nil
+			fd.fragment(file)
+			fd.verifFragments()
+			fd.link()
+			fd.verifLinked()
+		}
+	} else {
+		fd.fragment(n)
+		fd.verifFragments()
+		fd.link()
+		fd.verifLinked()
+	}
 
 	out, err := fd.decorateNode(nil, "", "", "", n)
 	if err != nil {
